@@ -18,6 +18,13 @@ type TopicSelectorStore struct {
 	skipSelect bool
 }
 
+// matchCacheEntry is a cached match result.
+// The selector is kept to detect cache key collisions: both the selector and the topic can contain the "_" separator.
+type matchCacheEntry struct {
+	topicSelector string
+	match         bool
+}
+
 func (tss *TopicSelectorStore) match(topic, topicSelector string) bool {
 	// Always do an exact matching comparison first
 	// Also check if the topic selector is the reserved keyword *
@@ -30,7 +37,9 @@ func (tss *TopicSelectorStore) match(topic, topicSelector string) bool {
 		k = "m_" + topicSelector + "_" + topic
 		value, found := tss.cache.Get(k)
 		if found {
-			return value.(bool)
+			if e, ok := value.(matchCacheEntry); ok && e.topicSelector == topicSelector {
+				return e.match
+			}
 		}
 	}
 
@@ -43,7 +52,7 @@ func (tss *TopicSelectorStore) match(topic, topicSelector string) bool {
 	// See https://github.com/yosida95/uritemplate/pull/7
 	match := r.MatchString(topic)
 	if tss.cache != nil {
-		tss.cache.Set(k, match, 4)
+		tss.cache.Set(k, matchCacheEntry{topicSelector, match}, 4)
 	}
 
 	return match
